@@ -200,6 +200,15 @@ def run_case(case_id: int):
                 manager.call_rsync = fake_rsync
                 backup_utils._sqlite_backup = fake_dump  # pylint: disable=protected-access
                 bpath = Path(dest) / f'b{bi}'
+                # the process that takes the backup may have used its handle before (which pins an index snapshot in it)
+                pinned = rng.choice(['none', 'has', 'count', 'list', 'has'])
+                if pinned == 'has':
+                    c.has_objects([key(x) for x in rng.sample(range(len(pool)), 3)])
+                elif pinned == 'count':
+                    c.count_objects()
+                elif pinned == 'list':
+                    list(c.list_all_objects())
+                res['stats'][f'pinned.{pinned}'] = res['stats'].get(f'pinned.{pinned}', 0) + 1
                 try:
                     backup_utils.backup_container(manager, c, bpath, prev)
                 finally:
